@@ -37,6 +37,18 @@ REBORROW_OK = {"make_mut", "get_mut", "deref_mut", "as_mut", "next", "into_iter"
                "borrow_mut", "index_mut", "last_mut", "first_mut"}
 
 
+def _places(x, out):
+    if isinstance(x, dict):
+        for v in x.values():
+            _places(v, out)
+    elif isinstance(x, list):
+        if len(x) >= 2 and isinstance(x[0], int) and not isinstance(x[0], bool) and isinstance(x[1], list) and x[1] \
+                and all(isinstance(e, str) for e in x[1]):
+            out.append(x)
+        for v in x:
+            _places(v, out)
+
+
 def run(ctx, rep):
     F = ctx.facts("full")
     rep.rule("C16.arms", "compile and satisfy use serialize::<fragment of the same name>, children in order")
@@ -52,7 +64,11 @@ def run(ctx, rep):
             rep.anchor("C16.arms", "Policy::" + name)
             continue
         builders[name] = fs[0]
+    inlined_builders = {}
     for name, f in builders.items():
+        # arms split into private methods (one per fragment) are spliced back in
+        f = F.inlined(f, tuple(set(FRAG.values())) + ("serialize_no_witness", "satisfy_internal", "ok_if", "hide"))
+        inlined_builders[name] = f
         T = Terms(f)
         sws = enum_switches(f, "policy::ast::Policy")
         if not sws:
@@ -96,6 +112,26 @@ def run(ctx, rep):
                     rep.violation("C16.arms", key + ":bypass", "%s: the arm for %s can return successfully without calling serialize::%s: the fragment "
                                   "would carry the root of a different program than Policy::cmr() computes" % (name, v, want), f.where())
                     okk = False
+            # every payload field of the variant is read in its arm: Policy::cmr() depends on all of them (entropy of an
+            # unsatisfiable leaf, the key, the hash, the lock time, k and the children), so a program built without one cannot
+            # have that root for every value of it
+            pdef = F.adts.get(POLICY)
+            if okk and pdef is not None:
+                vdef = next((x for x in pdef["variants"] if x["name"] == v), None)
+                used = set()
+                pl = []
+                for bb in region:
+                    _places(f.blocks[bb], pl)
+                for p_ in pl:
+                    pr = p_[1]
+                    for i_, st_ in enumerate(pr):
+                        if st_ == "@" + v and i_ + 1 < len(pr) and pr[i_ + 1].startswith("."):
+                            used.add(pr[i_ + 1][1:])
+                for fd in (vdef["fields"] if vdef else []):
+                    if fd["name"] not in used:
+                        rep.violation("C16.arms", key + ":payload:" + fd["name"], "%s: the arm for %s never reads the variant's field `%s`: the fragment it "
+                                      "builds cannot depend on it, but Policy::cmr() does" % (name, v, fd["name"]), f.where())
+                        okk = False
             if okk:
                 rep.ok("C16.arms", key, "serialize::%s ×%d" % (want, len(calls)))
         for v in rest:
@@ -226,6 +262,13 @@ def run(ctx, rep):
         rep.anchor("C16.sort", "switch on Policy in sort")
         return FINISH
     b, (place, adt, targets, otherwise, rest) = sws[0]
+    # an `if let A = self {..; return}` chain tests the discriminant several times: take each variant's arm from the
+    # switch that names it
+    targets = dict(targets)
+    for _b2, si2 in sws[1:]:
+        if (si2[0][0], tuple(si2[0][1])) == (place[0], tuple(place[1])):
+            for v_, t_ in si2[2].items():
+                targets.setdefault(v_, t_)
     composite = {}
     for a in F.adts.values():
         if a["path"] == POLICY:
@@ -235,6 +278,13 @@ def run(ctx, rep):
     if not composite:
         rep.anchor("C16.sort", "composite variants of Policy")
     rec_calls = [cs for cs in f.calls() if cs.callee == f.path]
+    # `subs.iter_mut().for_each(Policy::sort)`: the function itself handed to an iterator adaptor is a recursive call on
+    # each element of the adaptor's receiver
+    for cs in f.calls():
+        if cs.callee != f.path and cs.name in ("for_each", "map", "try_for_each") and len(cs.args) == 2:
+            ft = T.operand(cs.args[1])
+            if isinstance(ft, tuple) and ft and ft[0] == "fnitem" and ft[1] == f.path:
+                rec_calls.append(cs)
     # every recursive call's receiver must be a place inside *self
     for i, cs in enumerate(rec_calls):
         t = T.operand(cs.args[0])
@@ -291,7 +341,7 @@ def run(ctx, rep):
     rep.rule("C16.gate", "satisfy_internal: an unsatisfiable leaf is reported hidden; every leaf/or/threshold result is gated by ok_if on its condition")
     GATE = {"Unsatisfiable": "hide", "Trivial": None, "Key": "ok_if", "After": "ok_if", "Older": "ok_if", "Sha256": "ok_if",
             "And": None, "Or": "ok_if", "Threshold": "ok_if"}
-    si = builders.get("satisfy_internal")
+    si = inlined_builders.get("satisfy_internal")
     if si is not None:
         sws2 = enum_switches(si, "policy::ast::Policy")
         if sws2:
